@@ -37,6 +37,10 @@ def run(tier, seed, replay=None):
         nexp = len(cases)
         ck.extra["tlc_exported_matrices"] = nexp
         cases += [drv.gen(rng, maxn=4 if i % 3 == 0 else 7) for i in range(500 if tier == "quick" else 6000)]
+        from vlib import corpus
+        rc = corpus.hungarian_cases(corpus.capture(["tests/solvors/test_hungarian.py"]))
+        ck.extra["inputs_recorded_from_repository_tests"] = len(rc)
+        cases += rc
     res = run_tasks("assign", "run_hungarian", cases, timeout=20)
     trs = []
     for r, c in zip(res, cases):
